@@ -1,6 +1,6 @@
 (* C01 -- render() is total (partial: see MANIFEST level text).  Property theorems only. *)
 From Rimu Require Import Base Regex RegexParse Str Types Tables Guards State Inline Block
-  Frame FrameBlock FrameInst OptionsLemmas MiscLemmas Rel RelBlock RelApi.
+  Frame FrameBlock FrameInst OptionsLemmas MiscLemmas Rel RelBlock RelApi PlainDoc Unicode RegexAnalysis MoreLemmas Plain Lines TableFacts.
 
 (* option handling never fails, whatever the option values *)
 Theorem C01_update_total : forall o s, exists s', updateFrom o s = Ok (tt, s').
@@ -45,6 +45,13 @@ Theorem C01_callback_irrelevant_history : forall ls0 lt0 n src o1 o2 s t,
   orel (Rel ls0 lt0 NOCB) (api_render n src o1 s) (api_render n src o2 t).
 Proof. exact api_render_callback. Qed.
 Print Assumptions C01_callback_irrelevant_history.
+
+(* for such documents rendering provably returns (no Raise, no Fuel) and logs nothing *)
+Theorem C01_plain_total : forall n l s,
+  quiet_default s -> safe_line l ->
+  doc_render (S (S (S (S (S n))))) l s = Ok ($"<p>" ++ escape l ++ $"</p>", s).
+Proof. exact plain_line_document. Qed.
+Print Assumptions C01_plain_total.
 
 Example C01_ex :
   match api_render 40 $"Hello *world*" (mkOpts (PyStr $"junk") (PyInt 5) (PyStr $"maybe") true) S0 with
